@@ -297,9 +297,14 @@ def lp_in_hull(s, Pm):
 
 
 def facet_violation(Sm, Pm):
-    """max signed distance outside the hull of Pm over all samples (<=0 means inside)."""
+    """max signed distance outside the hull of Pm over all samples (<=0 means inside).
+    Returns (-inf, None) when the harness's own qhull call cannot build the hull (degenerate
+    cloud): the LP oracle then carries membership alone and uniformity is skipped."""
     from scipy.spatial import ConvexHull
-    h = ConvexHull(Pm)
+    try:
+        h = ConvexHull(Pm)
+    except Exception:  # noqa: BLE001 - QhullError in the *oracle*, not in the code under test
+        return -np.inf, None
     d = Sm @ h.equations[:, :-1].T + h.equations[:, -1]
     return float(d.max()), h
 
@@ -546,6 +551,11 @@ def execute(plan):
                     bump("uniformity_skipped_unbounded")
                 else:
                     _, h = facet_violation(Sm, Pts)
+                    if h is None:
+                        bump("uniformity_skipped_oracle_hull_failed")
+                        cov.append((d_out, "oracle_hull_failed"))
+                        results[oi] = key
+                        continue
                     g = np.random.Generator(np.random.PCG64(plan["cut_seed"]))
                     worst_z, tested = 0.0, 0
                     Vh = h.points[h.vertices]
@@ -556,7 +566,10 @@ def execute(plan):
                         w = g.dirichlet(np.ones(len(Vh)))
                         x0 = w @ Vh
                         off = -float(nv @ x0)
-                        f = exact_cut_fraction(h, nv, off)
+                        try:
+                            f = exact_cut_fraction(h, nv, off)
+                        except Exception:  # noqa: BLE001 - qhull trouble inside the oracle
+                            f = None
                         if f is None or not (0.02 < f < 0.98):
                             continue
                         fh = float(np.mean(Sm @ nv + off <= 0))
